@@ -9,6 +9,7 @@ import (
 	"fmt"
 	"hash"
 	"io"
+	"net/url"
 	"sort"
 	"strconv"
 	"strings"
@@ -47,6 +48,21 @@ import (
 //   iso_canonical_example_test.go:188-249, urna_example_test.go  two isomorphic inputs print the same output
 
 func init() {
+	// every printable ASCII character an IRIREF cannot hold literally (the
+	// control characters are left out: net/url, which the package validates
+	// IRIs with, rejects them, and an error is a legitimate answer)
+	// (https://www.w3.org/TR/n-quads/#grammar-production-IRIREF), as a UCHAR
+	// escape in the query part: a constructor that is handed the decoded text
+	// has to write each of them as an escape again
+	for _, ch := range "<>\"{}|^`\\" {
+		rdfIRIs = append(rdfIRIs, fmt.Sprintf("<http://example.org/q?x=%s%04xy>", rdfU, ch))
+		// and the decoded text for the constructor, where net/url (which
+		// NewIRITerm validates with) takes it: the term must print with the
+		// character escaped, parse, and give the text back
+		if text := "http://example.org/q?x=" + string(ch) + "y"; func() bool { _, err := url.Parse(text); return err == nil }() {
+			rdfPlainIRIs = append(rdfPlainIRIs, text)
+		}
+	}
 	register(&Scenario{Name: "nquads", Run: runNQuads})
 	register(&Scenario{Name: "rdf-c14n", Run: runRDFC14n})
 }
